@@ -2053,6 +2053,15 @@ class Engine:
         if isinstance(recv, PyList) and name == 'append':
             recv.items.append(args[0])
             return None
+        if isinstance(recv, PyList) and name == 'sort' and not args and not kwargs:
+            if all(type(x) is str for x in recv.items) or all(type(x) is int for x in recv.items):
+                recv.items.sort()               # concrete keys: plain execution (in place, as in Python)
+                return None
+            raise Unsupported('list.sort of symbolic items')
+        if isinstance(recv, PyList) and name == 'pop' and len(args) <= 1 and not kwargs and all(isinstance(a, int) for a in args):
+            if not recv.items or (args and not -len(recv.items) <= args[0] < len(recv.items)):
+                raise PyRaise('IndexError')
+            return recv.items.pop(*args)
         if isinstance(recv, ArrList) and name == 'append':
             item = args[0]
             if isinstance(item, Obj):
